@@ -48,9 +48,22 @@ Definition name_of (c : c10_case) (T : nat) : string :=
 Definition iface_of (c : c10_case) (T : nat) : bool :=
   match find (fun p => Nat.eqb (fst p) T) (k_types c) with Some p => snd (snd p) | None => false end.
 
+(* only MustGet may panic with the error, and only when the conversion failed *)
+Fixpoint mustpanic_ok (c : c10_case) (ops : list (op nat)) (obs : list outcome) : bool :=
+  match ops, obs with
+  | o :: ops', r :: obs' =>
+      match r, o with
+      | OMustPanic, MustGet k T => match conv_lookup (k_conv c) k T with Some (Ok _) => false | _ => true end
+      | OMustPanic, _ => false
+      | _, _ => true
+      end && mustpanic_ok c ops' obs'
+  | _, _ => true
+  end.
+
 Definition c10_spec_ok (c : c10_case) : bool :=
   list_eqb outcome_eqb (k_obs c) (k_fresh c) &&
-  negb (existsb is_panic (k_obs c)) && negb (existsb is_panic (k_fresh c)).
+  negb (existsb is_panic (k_obs c)) && negb (existsb is_panic (k_fresh c)) &&
+  mustpanic_ok c (k_ops c) (k_obs c) && mustpanic_ok c (k_ops c) (k_fresh c).
 
 Definition c10_model_eq (c : c10_case) : bool :=
   list_eqb outcome_eqb (k_obs c) (run nat Nat.eqb (conv_of c) [] (k_ops c)) &&
